@@ -1401,7 +1401,7 @@ func (c *Canonicalizer) funcRefName(f *ssa.Function) string {
 		}
 		// Instantiations of a generic function and bound-method/thunk wrappers are separate SSA
 		// functions that carry the declared function's name: they are the function itself too.
-		if cur != nil && f.Object() != nil && f.Object() == cur.Object() {
+		if cur != nil && f.Object() != nil && (f.Object() == cur.Object() || sameOrigin(f.Object(), cur.Object())) {
 			return "$self" + strings.TrimPrefix(f.Name(), cur.Name())
 		}
 		// A function of another package is named with its package (and receiver), so that
@@ -1422,6 +1422,14 @@ func (c *Canonicalizer) funcRefName(f *ssa.Function) string {
 		return f.Name()
 	}
 	return "$self" + strings.TrimPrefix(f.Name(), root.Name())
+}
+
+// sameOrigin: a method of a generic type reached through another instantiation of its receiver
+// has its own types.Func; Origin() is the declaration both belong to.
+func sameOrigin(a, b types.Object) bool {
+	af, _ := a.(*types.Func)
+	bf, _ := b.(*types.Func)
+	return af != nil && bf != nil && af.Origin() == bf.Origin()
 }
 
 func packageQualifier(p *types.Package) string {
